@@ -19,9 +19,13 @@ META = dict(
     min={"calls:quantize_weight": 5000, "calls:SymmetricQuantizer": 2000, "calls:quantize_activation": 300,
          "calls:AffineQuantizer": 1000, "accepted_and_judged": 800, "rejected_with_ValueError": 3000,
          "qlinear_group_sizes": 2048, "qconv_group_sizes": 100, "module_forwards": 300},
-    anchors=["tensor/qweight.py:quantize_weight", "tensor/qactivation.py:quantize_activation",
-             "tensor/quantizers/symmetric.py:SymmetricQuantizer.forward", "tensor/quantizers/affine.py:AffineQuantizer.forward",
-             "tensor/qbits/group.py:group", "nn/qmodule.py:QModuleMixin.__init__"],
+    anchors=["tensor/qweight.py:quantize_weight",
+             "tensor/qactivation.py:quantize_activation",
+             "tensor/quantizers/symmetric.py:SymmetricQuantizer.forward",
+             "tensor/quantizers/affine.py:AffineQuantizer.forward",
+             "tensor/qbits/group.py:group",
+             "nn/qmodule.py:QModuleMixin.__init__",
+             "nn/qmodule.py:QModuleMixin._set_weight_group_size"],
     rule="case = one call of the full cross product qtype(6) x axis {None,-2..2} x group_size {None, 1..per-axis count+2, "
          "2*numel} x optimizer {default, Absmax, Max} x 13 shapes of rank 1-4 for quantize_weight; qtype x axis x scale "
          "shape {scalar, (1,), ones, matching per-axis, transposed per-axis, wrong length, rank-deficient} for "
